@@ -123,6 +123,8 @@ OneResult runOne(RK kind, const Delivery& d, const std::string& wire, Transcript
       buildFilterDoc(fdoc, d.filter);
       o.hasFilter = true;
       o.filter = fdoc.as<JsonVariantConst>();
+      if (!d.filterFirst && (wire.size() & 1))
+        o.filterDoc = &fdoc;  // the Filter(JsonDocument&) constructor, which shrinks the filter document first
     }
     JsonDocument* doc = new JsonDocument(&alloc);
     // the destination holds something beforehand: it must be entirely replaced
